@@ -135,6 +135,10 @@ pub struct ExecCfg {
   pub hash_seed: u64,
   /// allow "clock advances although threads are enabled" as a cost-1 option
   pub skew: bool,
+  /// also a scheduling point before every lock *release*. Needed only when the
+  /// code under test uses try_read/try_write/try_lock, which can observe "held"
+  /// without blocking; the explorer switches it on when it sees a try_* call.
+  pub release_points: bool,
 }
 
 impl Default for ExecCfg {
@@ -146,6 +150,7 @@ impl Default for ExecCfg {
       trace: false,
       hash_seed: 0,
       skew: false,
+      release_points: false,
     }
   }
 }
@@ -208,6 +213,9 @@ pub struct Ctx {
   pub exec: Arc<Exec>,
   pub tid: usize,
 }
+
+/// set as soon as any controlled thread calls try_read/try_write/try_lock
+pub static TRY_SEEN: std::sync::atomic::AtomicBool = std::sync::atomic::AtomicBool::new(false);
 
 thread_local! {
   static CTX: RefCell<Option<Ctx>> = const { RefCell::new(None) };
@@ -731,6 +739,12 @@ impl Exec {
   }
 
   pub fn release(&self, me: usize, lock: usize, mode: Mode) {
+    if self.cfg.release_points && !std::thread::panicking() {
+      let aborting = self.lock().abort;
+      if !aborting {
+        self.sched_point(me, Pending::Point(7));
+      }
+    }
     let mut st = self.lock();
     if st.abort {
       return;
@@ -758,6 +772,7 @@ impl Exec {
 
   /// try_* support: non-blocking attempt, with a scheduling point before.
   pub fn try_acquire(&self, me: usize, lock: usize, mode: Mode) -> bool {
+    TRY_SEEN.store(true, std::sync::atomic::Ordering::Relaxed);
     self.sched_point(me, Pending::Point(1));
     let mut st = self.lock();
     // a try on a lock the thread itself holds simply fails
